@@ -359,6 +359,9 @@ def impl_runs(ctx, deep):
                                                   'values': vals, 'results': res})
     # --- assignments against objects in different prior states (created / loaded / row written past the ORM with an invalid value)
     R['assign_states'], R['assign_convs'] = impl.run_state_assignments()
+    R['types'] = impl.type_outcomes()
+    R['dec_init'] = [((p_, s_), impl.dec_init_real(p_, s_)) for p_ in (-1, 0, 1, 2, 5, 12, 40) for s_ in (-1, 0, 1, 2, 5, 6, 12, 13)]
+    R['dec_precision_accepts'] = impl.dec_precision_probe()
     _cache[key] = R
     return R
 
@@ -437,6 +440,17 @@ def correspondence(ctx):
         if len(set(r[0] for r in rec['results'])) > 1:
             for v in rec['values']: nontrivial.add(('attr', json.dumps(d, sort_keys=True), v))
 
+    # declared type: the table interpreted from source vs the real validate on the same representatives; Decimal(precision, scale) declarations
+    dist['type_dispatch_cells'] = 0; dist['decimal_declarations'] = 0
+    for ck, row in sorted(R['types'].items()):
+        for tag, o in sorted(row.items()):
+            exprs.append('chk_type %s %s %s' % (ck, tag, '(TyAccept %s)' % o[1] if o[0] == 'accept' else '(TyReject %d)' % o[1]))
+            meta.append(('type', [ck, tag], o)); dist['type_dispatch_cells'] += 1; cases += 1
+            nontrivial.add(('type', ck, tag))
+    for (p_, s_), o in R['dec_init']:
+        exprs.append('chk_dec_init %s %s %s' % (cz(p_), cz(s_), '(Ok (%s, %s))' % (cz(o[1]), cz(o[2])) if o[0] == 'ok' else '(Err %d)' % o[1]))
+        meta.append(('dec_init', [p_, s_], o)); dist['decimal_declarations'] += 1; cases += 1
+
     # assignment in different prior states: int attributes, int candidates, compared with attr_set_outcome (scanned from Attribute.__set__)
     dist['assign_state_cases'] = 0
     for r in R['assign_states']:
@@ -476,7 +490,7 @@ def correspondence(ctx):
 
     # the defect flags computed inside Coq from the translated code vs. the real implementation
     flags_impl = real_flags()
-    dist['flags(int_zero_bound_ignored, real_zero_bound_ignored, real_nan_accepted, str_zero_max_len_ignored)'] = {'model': flags_model, 'implementation': flags_impl}
+    dist['flags(int_zero_bound_ignored, real_zero_bound_ignored, real_nan_accepted, str_zero_max_len_ignored, bool_accepts_any_type)'] = {'model': flags_model, 'implementation': flags_impl}
     if flags_model != flags_impl:
         disagreements.append({'what': 'defect flags computed from the translated model differ from the real implementation', 'input': 'C08_flags',
                               'model': flags_model, 'impl': flags_impl})
@@ -496,7 +510,9 @@ def real_flags():
     a2 = acc(orm.Optional(float, min=0), -1.0) or acc(orm.Optional(float, max=0), 1.0)
     a3 = acc(orm.Optional(float, min=1, max=2), float('nan'))
     a4 = acc(orm.Optional(str, 0), 'a')
-    return [a1, a2, a3, a4]
+    try: sq.get_converter_by_attr(orm.Optional(bool)).validate('x'); a5 = True
+    except Exception: a5 = False
+    return [a1, a2, a3, a4, a5]
 
 
 # ------------------------------------------------------------------------------------------------ search (property oracle)
@@ -596,6 +612,30 @@ def search(ctx, deep):
                      '%s(%s, %s): validate(%r) gives %r, expected %r' % (d['kind'], d['type'], {k: d[k] for k in ('nullable', 'volatile', 'sql_default', 'py_check', 'autostrip')}, v, r, want),
                      {'type': 'attr', 'decl': d, 'value': v})
             else: nontriv.add(('attr', json.dumps(d, sort_keys=True), v))
+    # declared type (independent table of what each attribute type may take)
+    for ck, row in sorted(R['types'].items()):
+        for tag, o in sorted(row.items()):
+            evals += 1
+            allowed = tag in TYPE_ALLOWED[ck]
+            if o[0] == 'accept' and not allowed:
+                key = 'bool-accepts-any-value' if ck == 'CBool' else 'unlisted:type:%s:%s:accepted' % (ck, tag)
+                fail(key, '%s attribute: a %s value is accepted (continues as %s)' % (ck[1:].lower(), tag[2:], o[1][2:]), {'type': 'pytype', 'conv': ck, 'tag': tag})
+            elif o[0] == 'reject' and tag in TYPE_CORE[ck]:
+                fail('unlisted:type:%s:%s:rejected' % (ck, tag), '%s attribute: a %s value is refused (code %s)' % (ck[1:].lower(), tag[2:], o[1]), {'type': 'pytype', 'conv': ck, 'tag': tag})
+            elif o[0] == 'reject' and o[1] not in (1, 2):
+                fail('unlisted:type:%s:%s:exception-class' % (ck, tag), '%s attribute: a %s value raises an exception that is neither TypeError nor ValueError' % (ck[1:].lower(), tag[2:]),
+                     {'type': 'pytype', 'conv': ck, 'tag': tag})
+            else: nontriv.add(('type', ck, tag))
+    evals += 1
+    if R['dec_precision_accepts']:
+        fail('decimal-precision-not-enforced', 'Optional(Decimal, 5, 2) accepts Decimal("123456.789"): validate never compares the digits with the declared precision/scale',
+             {'type': 'dec-precision'})
+    for (p_, s_), o in R['dec_init']:
+        evals += 1
+        want = 0 < s_ <= p_ and p_ > 0
+        if (o[0] == 'ok') != want:
+            fail('unlisted:decimal-declaration:precision=%s:scale=%s' % (sgn(p_), sgn(s_)), 'Decimal(precision=%d, scale=%d) is %s' % (p_, s_, 'accepted' if o[0] == 'ok' else 'refused'),
+                 {'type': 'dec-init', 'p': p_, 's': s_})
     for r in R['assign_states']:
         evals += 1
         if r['assign'] != r['validate']:
@@ -609,6 +649,14 @@ def search(ctx, deep):
     dist = {'failing_inputs_by_key': by_key, 'evaluations_by_type': {k: sum(len(r.get('values', [])) for r in R[k]) for k in ('int', 'int64', 'float', 'dec', 'str', 'attr')}}
     return Search(evaluations=evals, failures=failures, nontrivial=len(nontriv), distribution=dist, exhaustive=True,
                   samples=[{'declaration': 'Optional(int, size=8, unsigned=True, max=200)', 'values': [-1, 0, 200, 201, 255, 256], 'oracle': 'accepted iff 0 <= v <= 200'}])
+
+
+TYPE_ALLOWED = {'CBool': {'TgBool'}, 'CStr': {'TgStrNum', 'TgStrText'}, 'CInt': {'TgInt', 'TgBool', 'TgStrNum'},
+                'CReal': {'TgFloat', 'TgInt', 'TgBool', 'TgStrNum', 'TgDecimal'}, 'CDecimal': {'TgDecimal', 'TgInt', 'TgBool', 'TgFloat', 'TgStrNum'}, 'CBlob': {'TgBytes'},
+                'CDate': {'TgDate', 'TgDatetime', 'TgStrNum', 'TgStrText'}, 'CTime': {'TgTime', 'TgStrNum', 'TgStrText'}, 'CTimedelta': {'TgTimedelta', 'TgStrNum', 'TgStrText'},
+                'CDatetime': {'TgDatetime', 'TgStrNum', 'TgStrText'}, 'CUuid': {'TgUuid', 'TgBytes', 'TgInt', 'TgBool', 'TgStrNum', 'TgStrText'}}
+TYPE_CORE = {'CBool': {'TgBool'}, 'CStr': {'TgStrNum', 'TgStrText'}, 'CInt': {'TgInt'}, 'CReal': {'TgFloat'}, 'CDecimal': {'TgDecimal'}, 'CBlob': {'TgBytes'}, 'CDate': {'TgDate'},
+             'CTime': {'TgTime'}, 'CTimedelta': {'TgTimedelta'}, 'CDatetime': {'TgDatetime'}, 'CUuid': {'TgUuid'}}
 
 
 def ref_attr(d, st, v):
@@ -686,6 +734,20 @@ def replay(ctx, data):
         want = ref_attr(d, st, v)
         if r != want: return Failure('unlisted:attr:replay', 'validate(%r) gives %r, expected %r' % (v, r, want), data)
         return None
+    if t == 'pytype':
+        o = impl.type_outcomes()[data['conv']][data['tag']]
+        if o[0] == 'accept' and data['tag'] not in TYPE_ALLOWED[data['conv']]:
+            return Failure('bool-accepts-any-value' if data['conv'] == 'CBool' else 'unlisted:type:%s:%s:accepted' % (data['conv'], data['tag']),
+                           '%s attribute accepts a %s value' % (data['conv'][1:].lower(), data['tag'][2:]), data)
+        if o[0] == 'reject' and data['tag'] in TYPE_CORE[data['conv']]:
+            return Failure('unlisted:type:%s:%s:rejected' % (data['conv'], data['tag']), '%s attribute refuses a %s value' % (data['conv'][1:].lower(), data['tag'][2:]), data)
+        return None
+    if t == 'dec-precision':
+        return Failure('decimal-precision-not-enforced', 'Optional(Decimal, 5, 2) accepts Decimal("123456.789")', data) if impl.dec_precision_probe() else None
+    if t == 'dec-init':
+        o = impl.dec_init_real(data['p'], data['s'])
+        want = 0 < data['s'] <= data['p']
+        return Failure('unlisted:decimal-declaration:replay', 'Decimal(%d, %d): %r' % (data['p'], data['s'], o), data) if (o[0] == 'ok') != want else None
     if t == 'assign-state':
         out, convs = impl.run_state_assignments()
         for r in out:
